@@ -40,7 +40,7 @@ class Outcome:
     def __init__(self, delay=0.0, kind="ok", status=200, body=None, body_delay=0.0):
         self.delay = delay  # until the status line and the headers have arrived
         self.body_delay = body_delay  # from then until the last chunk of the body has arrived
-        self.kind = kind  # ok | status | conn-error | timeout | hang
+        self.kind = kind  # ok | status | conn-error | disconnect | timeout | hang
         self.status = status
         self.body = body
 
@@ -183,6 +183,9 @@ def _patched_start():
             es.on_done(w)
         if w.outcome == "conn-error":
             raise aiohttp.ClientConnectionError("simulated connection reset")
+        if w.outcome == "disconnect":
+            # (aiohttp itself re-sends an idempotent request once after this error, without telling the trace hooks)
+            raise aiohttp.ServerDisconnectedError()
         if w.outcome == "timeout":
             raise asyncio.TimeoutError()
         self._headers = CIMultiDictProxy(CIMultiDict({"content-type": "application/json"}))
